@@ -1,12 +1,12 @@
 package verifrt
 
 import (
-	"sync"
 	"cmp"
 	"fmt"
 	"iter"
 	"reflect"
 	"sort"
+	"sync"
 	"unsafe"
 )
 
